@@ -194,6 +194,7 @@ class Check:
         self.rng = random.Random(seed * 1000003 + int(prop[1:]))
         self.cov: dict = {"evaluations": 0, "samples": [], "input_distribution": {}}
         self.assumptions: list[str] = []
+        self.failure_counts: dict[str, int] = {}
         self.failures: list[dict] = []  # property failures on the implementation (signature, example)
         self.broken: list[dict] = []  # obligations / correspondences that no longer check
         self.distinct = set()
@@ -229,7 +230,8 @@ class Check:
                 if self.known_seen[k["signature"]] == 1:
                     k["_example_now"] = example
                 return
-        if len(self.failures) < 50:
+        self.failure_counts[signature] = self.failure_counts.get(signature, 0) + 1
+        if self.failure_counts[signature] <= 3 and len(self.failure_counts) <= 60:
             self.failures.append({"signature": signature, "example": example, "detail": detail})
 
     def broke(self, kind: str, name: str, detail=""):
@@ -275,6 +277,7 @@ class Check:
         cov["facts_errors"] = self.build_info.get("facts", {}).get("errors")
         cov["source_digests"] = self.build_info.get("facts", {}).get("digests")
         cov["known_findings_seen"] = self.known_seen
+        cov["failure_signatures"] = self.failure_counts
         cov["broken"] = [{"kind": b["kind"], "name": b["name"]} for b in self.broken]
         if extra_cov:
             cov.update(extra_cov)
